@@ -141,6 +141,15 @@ def check_tables(program, rep):
         if isinstance(v, ast.Call) and dotted(v.func) in (
                 'tuple', 'list', 'frozenset', 'set') and len(v.args) == 1:
             v = v.args[0]
+        if isinstance(v, ast.Name):
+            # a local holding the list of pairs built by a comprehension
+            for e_ in reversed(tr):
+                if e_.kind == 'local' and isinstance(
+                        e_.target, ast.Name) and e_.target.id == v.id \
+                        and isinstance(e_.sym.node, (ast.ListComp,
+                                                     ast.GeneratorExp)):
+                    v = e_.sym.node
+                    break
         h_pairs = None
         if isinstance(v, (ast.GeneratorExp, ast.ListComp)) and len(
                 v.generators) == 1 and norm(v.generators[0].iter) \
